@@ -64,8 +64,8 @@ B_nobias   == {-9, 60}
 T_8 == {<<3, 3>>, <<5, 6>>, <<1, 0>>, <<3, 1>>, <<11, 10>>, <<1, 9>>, <<37, 8>>, <<255, 10>>}
 T_6 == {<<3, 3>>, <<5, 6>>, <<3, 1>>, <<11, 10>>, <<37, 8>>, <<255, 10>>}
 T_4 == {<<3, 3>>, <<5, 6>>, <<3, 1>>, <<37, 8>>}
-B_approx_quick    == {-134217728, -2097153, 0, 3, 134217720, 134217728}
-B_approx_thorough == B_approx_quick \cup {-1048577, -5, 1048576, 2097151}
+B_approx_quick    == {-134217728, -2097153, 0, 134217720, 134217728}
+B_approx_thorough == B_approx_quick \cup {-1048577, -5, 3, 1048576, 2097151}
 T_approx_quick    == {<<3, 3>>, <<5, 6>>, <<3, 1>>, <<37, 8>>, <<1, 8>>, <<255, 8>>, <<16, 0>>}
 T_approx_thorough == T_approx_quick \cup {<<1, 0>>, <<129, 8>>, <<5, 0>>}
 Big_quick    == {-1073741823, -16385, -16384, -1, 0, 1, 16383, 16384, 32768, 268435456, 1073741823}
@@ -79,6 +79,8 @@ EdgeS_all       == 0..31
 T_edge_quick    == {<<t, s>> : t \in EdgeTm_quick, s \in EdgeS_all}
 T_edge_thorough == {<<t, s>> : t \in EdgeTm_thorough, s \in EdgeS_all}
 W_edge == {1, 127}
+W_edge_quick == {127}
+T_edge_w32 == {<<6962545, 31>>, <<6962545, 30>>, <<1, 31>>}
 B_edge == {-1, 0}
 B_edge_thorough == {-1, 0, 200}
 EdgeX  == {0, 200}
